@@ -79,10 +79,12 @@ type World struct {
 
 	cur        *Incarnation
 	incCount   int
-	effects    int64 // attempted persisted effects (store writes, device Sets), across incarnations
-	writes     int64 // successful store writes + device requests (stability detection)
-	lastChange int64 // unix nanos of the last successful write / device request / env action
-	crashAt    int64 // kill the incarnation just before this effect (0 = never)
+	effects    int64    // attempted persisted effects (store writes, device Sets), across incarnations
+	writes     int64    // successful store writes + device requests (stability detection)
+	lastChange int64    // unix nanos of the last successful write / device request / env action
+	crashAt    int64    // kill the incarnation just before this effect (0 = never)
+	rpcStart   sync.Map // goroutine id -> start time of its Atomix RPC in flight
+	slowRPCs   int64
 	crashAtRPC int64 // kill the incarnation just before this Atomix write RPC (0 = never)
 	rpcWrites  int64 // Atomix write RPCs issued by the system under test
 	Crashed    chan struct{}
@@ -291,6 +293,19 @@ func (inc *Incarnation) deliveryDelay() {
 // incarnation is dead, and the process can be killed just before its n-th Atomix write: that addresses the
 // gaps between the individual Atomix writes of one store method (path values, then the entry).
 func (inc *Incarnation) rpcTap(method string, after bool) {
+	// substrate latency: an RPC of the system under test that takes longer than 200 ms is evidence that the
+	// machine is starved; it restarts the stability window (see Exec.Settle) - slowness must never look like silence
+	if t := currentTaskObj(); t != nil && !inc.dead.Load() {
+		g := goid()
+		if !after {
+			inc.w.rpcStart.Store(g, time.Now())
+		} else if v, ok := inc.w.rpcStart.LoadAndDelete(g); ok {
+			if d := time.Since(v.(time.Time)); d > 200*time.Millisecond {
+				atomic.AddInt64(&inc.w.slowRPCs, 1)
+				inc.w.InjectedFault()
+			}
+		}
+	}
 	if currentTaskObj() == nil {
 		// the harness' own reads and store-internal goroutines (watch replay, fan-out): only the optional hook
 		if h := inc.w.storeRPCHook.Load(); h != nil && after && !inc.dead.Load() {
@@ -330,6 +345,21 @@ func isWriteRPC(method string) bool {
 
 // CrashBeforeRPC kills the incarnation just before the n-th Atomix write RPC issued by the system under test
 func (w *World) CrashBeforeRPC(n int64) { atomic.StoreInt64(&w.crashAtRPC, n) }
+
+// SlowRPCs is the number of Atomix RPCs of the system under test that took longer than 200 ms
+func (w *World) SlowRPCs() int64 { return atomic.LoadInt64(&w.slowRPCs) }
+
+// OldestRPCInFlight is the age of the oldest Atomix RPC of the system under test that has not returned yet
+func (w *World) OldestRPCInFlight() time.Duration {
+	var oldest time.Duration
+	w.rpcStart.Range(func(_, v interface{}) bool {
+		if d := time.Since(v.(time.Time)); d > oldest {
+			oldest = d
+		}
+		return true
+	})
+	return oldest
+}
 
 // RPCWrites is the number of Atomix write RPCs issued by the system under test so far
 func (w *World) RPCWrites() int64 { return atomic.LoadInt64(&w.rpcWrites) }
